@@ -1,11 +1,1 @@
 package main
-
-
-type threadState struct{}
-
-func (t *threadState) access(in *Interp, p *Value, write bool)          {}
-func (t *threadState) lockOp(in *Interp, mu *Value, op string)          {}
-func (t *threadState) syncPoint(in *Interp, what string)                {}
-func (t *threadState) spawn(in *Interp, fr *frame, fn Value, a []Value) {}
-
-
